@@ -400,12 +400,69 @@ def temp_mixed(known, part):
                         core.classify(known, part, f"C17:temp-mixed:difference-lost-precision:{order}", {"diff": du, "point": pu, "dtypes": [dta, dtb], "got": got.tolist(), "want": want})
 
 
+def equiv_ints(known, part):
+    """equivalence routes on integer data: floating-point result holding the same values as the same call on float64 data
+    (formulas with powers must not run in wrapping integer arithmetic), copying and in-place forms alike"""
+    from unyt import unyt_array
+
+    routes = [("effective_temperature", "K", "W/m**2", [60000, 300, 5]), ("effective_temperature", "W/m**2", "K", [60000, 250, 7]), ("sound_speed", "m/s", "K", [70000, 300, 3]),
+              ("sound_speed", "K", "m/s", [60000, 200, 9]), ("thermal", "K", "eV", [50000, 120, 2]), ("mass_energy", "g", "erg", [40000, 100, 1]), ("spectral", "cm", "Hz", [30000, 21, 4]),
+              ("schwarzschild", "kg", "m", [65000, 90, 6]), ("compton", "g", "cm", [100, 50, 3]), ("number_density", "g/cm**3", "cm**-3", [200, 10, 1]), ("lorentz", "dimensionless", "km/s", [200, 3, 2])]
+    for eq, fu, tu, vals in routes:
+        for dt in INT_DT:
+            info = np.iinfo(dt)
+            v = [x for x in vals if x <= info.max]
+            if not v:
+                continue
+            ref = unyt_array(np.array(v, dtype="float64"), fu).to_equivalent(tu, eq)
+            for form in ("to_equivalent", "to", "in_units", "to_value", "convert_to_equivalent"):
+                q = unyt_array(np.array(v, dtype=dt), fu)
+                part.ev()
+                try:
+                    with warnings.catch_warnings():
+                        warnings.simplefilter("ignore")
+                        if form == "to_equivalent":
+                            r = q.to_equivalent(tu, eq)
+                        elif form == "to":
+                            r = q.to(tu, eq)
+                        elif form == "in_units":
+                            r = q.in_units(tu, equivalence=eq)
+                        elif form == "to_value":
+                            r = q.to_value(tu, eq)
+                        else:
+                            q.convert_to_equivalent(tu, eq)
+                            r = q
+                except Exception as e:
+                    if np.dtype(dt).itemsize == 1 and form == "convert_to_equivalent":
+                        part.count("8-bit in-place refused (documented)")
+                        continue
+                    core.classify(known, part, f"C17:equivalence-raises:{form}:{np.dtype(dt).kind}{np.dtype(dt).itemsize}", {"equivalence": eq, "from": fu, "to": tu, "dtype": dt, "error": f"{type(e).__name__}: {e}"[:160]})
+                    continue
+                part.nt(("equiv", eq, fu, dt, form))
+                got = np.asarray(r)
+                if got.dtype.kind not in "fc":
+                    core.classify(known, part, f"C17:integer-result:equivalence:{form}", {"equivalence": eq, "dtype": dt, "got": repr(r)[:80]})
+                    continue
+                # rounding to the float type of the input's item size is allowed for the in-place form; the copying form computes in double
+                tol = 1e-11
+                if form == "convert_to_equivalent" and np.dtype(dt).itemsize < 8:
+                    # in place the formula runs in the float type of the buffer's item size: intermediate overflow / subnormals of
+                    # float16/float32 are that type's limits, not a truncation
+                    part.count("in-place equivalence on a narrow integer buffer: dtype clause only")
+                    continue
+                if not np.allclose(got.astype(float), np.asarray(ref, dtype=float), rtol=tol, atol=0):
+                    core.classify(known, part, f"C17:equivalence-values-differ-from-float64-input:{form}:{np.dtype(dt).kind}{np.dtype(dt).itemsize}",
+                                  {"equivalence": eq, "from": fu, "to": tu, "dtype": dt, "values": v, "got": got.tolist(), "float64_input_gives": np.asarray(ref).tolist()})
+
+
 def part_grid(payload):
     """deterministic dtype x pair x route grid with edge values"""
     known = core.Known("C17")
     part = core.Part()
     if payload.get("temp_mixed"):
         temp_mixed(known, part)
+    if payload.get("equiv_ints"):
+        equiv_ints(known, part)
     for dt in payload["dtypes"]:
         if dt in INT_DT:
             info = np.iinfo(dt)
@@ -443,7 +500,7 @@ def run(ctx):
         "overflow to +-inf of the prescribed float type is allowed",
         "the warning clause is asserted for to/in_units/to_value/convert_to_* (thresholds 2**24+1, 2**53+1 as documented)",
     ]
-    ctx.merge(core.pmap(MOD, "part_grid", [{"dtypes": [d]} for d in INT_DT + FLT_DT] + [{"dtypes": [], "temp_mixed": True}]))
+    ctx.merge(core.pmap(MOD, "part_grid", [{"dtypes": [d]} for d in INT_DT + FLT_DT] + [{"dtypes": [], "temp_mixed": True}, {"dtypes": [], "equiv_ints": True}]))
     n = ctx.pick(16000, 320000)
     ctx.merge(core.pmap(MOD, "part_random", [{"n": n // 16, "seed": ctx.seed * 1000 + i} for i in range(16)]))
 
